@@ -558,6 +558,17 @@ func (engine) Run(c any) lib.Result {
 		res.Oracle, res.Sig = mixedRerunPhase(cc)
 		res.Tags = append(res.Tags, "rerun:other-options-and-entries")
 	}
+	if res.Oracle == "" && obs.Class == "done" && cc.Entry == "" && cc.Input.Kind == "map" && streamable(&cc.Case) {
+		// the run suspended between two supersteps (one node asks for a rerun) and resumed from its checkpoint (see resume.go)
+		var n, nested int
+		res.Oracle, res.Sig, n, nested = resumePhase(cc, obs)
+		if n > 0 {
+			res.Tags = append(res.Tags, fmt.Sprintf("resumed-from-checkpoint:%d-points", n))
+		}
+		if nested > 0 {
+			res.Tags = append(res.Tags, "resumed-from-checkpoint:inside-nested-graph")
+		}
+	}
 	res.Nontrivial = gg.Nontrivial(cs, obs)
 	return res
 }
